@@ -117,7 +117,8 @@ class FileCache:
                 return
             if can_cache:
                 self.update_file_access_time(file_name)
-                self.current_memory_usage += memory_usage
+                # info[1] is what is already accounted for this entry (0 for a pending claim)
+                self.current_memory_usage += memory_usage - info[1]
                 self.file_futures[file_name] = (False, memory_usage, info[-1])
             else:
                 del self.file_futures[file_name]
